@@ -236,9 +236,9 @@ ParseInt(b) ==
         body == IF neg THEN Sub(b, 2, Len(b)) ELSE b IN
     IF Len(body) = 0 \/ ~AllDigits(body) \/ (Len(body) > 1 /\ body[1] = 48) \/ (neg /\ body = <<48>>) THEN Bad
     ELSE Ok([neg |-> neg, d |-> B2D(body)])
-\* YEAR: MySQL sends four digits ("0000" for the zero year); the denotation does not depend on the
-\* padding, so 1..4 digits are admitted
-ParseYear(b) == IF Len(b) \in 1..4 /\ AllDigits(b) THEN Ok([neg |-> FALSE, d |-> StripZ(B2D(b))]) ELSE Bad
+\* YEAR: exactly four digits, "0000" for the zero year.  (The spelling matters: converted back as a
+\* string, '0' is the year 2000 in MySQL's rules, only '0000' is the zero year.)
+ParseYear(b) == IF Len(b) = 4 /\ AllDigits(b) THEN Ok([neg |-> FALSE, d |-> StripZ(B2D(b))]) ELSE Bad
 \* BIT(n): ceil(n/8) bytes, big-endian, the unused high bits zero
 ParseBit(ty, b) ==
     IF Len(b) # BitBytes(ty) THEN Bad
